@@ -98,7 +98,7 @@ pub struct ArmOpts {
 pub fn generate(arm: &str, seed: u64, o: ArmOpts) -> Scenario {
     let mut rng = Rng::new(seed);
     let mut trng = rng.fork(1);
-    let table = Table::generate(&mut trng, GenOpts { depth_free: o.depth_free, long_arcs: o.long_arcs, max_n: if o.large { 16 } else { 8 }, max_s: if o.large { 14 } else { 6 }, reconverge: o.reconverge, dom_friendly: o.force_dom == Some(true) || rng.chance(1, 3), few_dead_arcs: rng.chance(1, 3), knapsack_quarters: o.knapsack_quarters, top_merge_quarters: 1 });
+    let table = Table::generate(&mut trng, GenOpts { depth_free: o.depth_free, long_arcs: o.long_arcs, max_n: if o.large { 16 } else { 8 }, max_s: if o.large { 14 } else { 6 }, reconverge: o.reconverge, dom_friendly: o.force_dom == Some(true) || rng.chance(1, 3), few_dead_arcs: rng.chance(1, 3), knapsack_quarters: o.knapsack_quarters, top_merge_quarters: 1, abyss_one_in: if o.long_arcs || o.force_dom == Some(true) { 0 } else { 25 } });
     let dd = if o.force_pooled { Dd::Pooled } else { *rng.pick(&[Dd::Lel, Dd::Fc, Dd::Pooled]) };
     let cache = o.force_cache.unwrap_or_else(|| rng.chance(1, 2));
     let depth_free = !table.depth_in_state;
@@ -106,6 +106,8 @@ pub fn generate(arm: &str, seed: u64, o: ArmOpts) -> Scenario {
     let wmax = if o.large { *rng.pick(&[1, 2, 3, 4, 5, 6, 8, 10]) } else { *rng.pick(&[1, 1, 1, 2, 2, 2, 3, 3, 4]) };
     let width = if o.perturb && rng.chance(1, 3) { WidthPlan::Jitter { seed: rng.next(), max: wmax.max(2) } } else { WidthPlan::Fixed(wmax) };
     let want_dom = o.force_dom.unwrap_or_else(|| rng.chance(1, 3));
+    // instances whose cost-to-go leaves the isize range get no dominance rule (its coordinates are clamped values-to-go: ties)
+    let want_dom = want_dom && table.v0 != 3 * (1isize << 61);
     let dominance = if want_dom { Some(rng.pick(&[DomRule::Exact, DomRule::FinerKey, DomRule::Sim, DomRule::Sim]).clone()) } else { None };
     let dom_weaken_per_mille = if o.perturb && dominance.is_some() && rng.chance(1, 4) { 200 } else { 0 };
     let cache_lossy_per_mille = if o.perturb && cache && o.force_cache.is_none() && rng.chance(1, 4) { 150 } else { 0 };
